@@ -466,7 +466,12 @@ func (g *fleetGen) actor(n *fgNode) {
 	case "query":
 		g.doQuery(n)
 	case "chmap":
-		g.changeMapping(n)
+		if n.n == 0 {
+			g.emit(engine.Event{Ev: "add", N: n.id, V: engine.F64(g.value(n))})
+			n.n++
+		} else {
+			g.changeMapping(n)
+		}
 	}
 	if op != "query" && r.Pct(g.prof.queryEvery) {
 		g.doQuery(n)
